@@ -49,7 +49,7 @@ ANCHORS = ['pfhedge.nn.functional:d1',
            'pfhedge.nn.modules.bs._base:acquire_params_from_derivative_1',
            'pfhedge.nn.modules.bs._base:acquire_params_from_derivative_2']
 DECIDING = ["module.partial_arguments", "module.own_contract_with_derivative_state", "price.european", "price.european_binary", "price.american_binary", "price.lookback", "module.plumbing"]
-REQUIRED_BRANCHES = ["module.partial.max_omitted_spot_given", "module.resimulated_through_underlier", "american_binary.max==strike>spot", "european.put", "european_binary.put", "american_binary.max>=strike", "american_binary.max<strike",
+REQUIRED_BRANCHES = ["module.struck_at_initial_spot", "module.partial.max_omitted_spot_given", "module.resimulated_through_underlier", "american_binary.max==strike>spot", "european.put", "european_binary.put", "american_binary.max>=strike", "american_binary.max<strike",
                      "lookback.max>=strike", "lookback.max<strike", "strike!=1"]
 
 _CTX = None
@@ -247,8 +247,10 @@ def drv_module(ctx, k, rng):
     """Modules built from a simulated derivative use its strike, flag and simulated state."""
     dtype = pick(rng, [None, F64, F64])
     sigma = float(rng.uniform(0.1, 0.6))
-    stock = BrownianStock(sigma=sigma, dtype=dtype, dt=float(pick(rng, [1 / 250, 1 / 52]))) if rng.random() < 0.7 else HestonStock(dtype=dtype)
-    K = float(pick(rng, [1.0, 0.9, 1.2, 2.0, 0.5]))
+    # (a drifting underlier: the Black-Scholes price of the module is the zero-rate risk-neutral one whatever the real-world drift)
+    stock = (BrownianStock(sigma=sigma, mu=float(pick(rng, [0.0, 0.0, 0.15, -0.3])), dtype=dtype, dt=float(pick(rng, [1 / 250, 1 / 52])))
+             if rng.random() < 0.7 else HestonStock(dtype=dtype))
+    K = float(pick(rng, [1.0, 0.9, 1.2, 2.0, 0.5, 1.03, 1.05, 1.27, 2.1, 0.95, 1.9, 3.15, round(float(rng.uniform(0.4, 3.5)), 2)]))
     call = bool(rng.random() < 0.5)
     kind = pick(rng, ["european", "european_binary", "american_binary", "lookback"])
     mat = int(pick(rng, [3, 10, 20])) * stock.dt
@@ -263,6 +265,10 @@ def drv_module(ctx, k, rng):
         call = True
         d = LookbackOption(stock, call=True, strike=K, maturity=mat)
     init = (float(K * math.exp(rng.uniform(-0.2, 0.2))) if rng.random() < 0.5 else K,) if isinstance(stock, BrownianStock) else None
+    if init is not None and init[0] == K:
+        # an option struck exactly at the initial spot (given in the stock's own dtype, so that spot / strike is exactly one at the first step)
+        init = (torch.tensor(K, dtype=dtype or torch.get_default_dtype()),)
+        ctx.branch("module.struck_at_initial_spot")
     d.simulate(n_paths=2, init_state=init)
     m = BlackScholes(d)
     if rng.random() < 0.5:
